@@ -29,6 +29,7 @@ FAULTS: Dict[str, Any] = {}  # injected faults, keyed by step uuid string -> kin
 GATES: Dict[str, Any] = {}
 
 
+MERGE_DELAY: Dict[str, float] = {}
 UPLOAD_FAULT: Dict[str, Any] = {}  # {"armed": True}: every upload to the flight store raises (inherited by forked workers)
 
 
@@ -47,6 +48,20 @@ def install_step_observers() -> None:
         return _orig_upload(location, table, table_key)
 
     _FS.upload_table = staticmethod(_upload)  # type: ignore[method-assign]
+    # optional delay between computing a merge and storing it (JoinStep does `cfw.data = engine.merge(cfw.data, ...)`): widens the
+    # read-modify-write window of a join the way large tables do, so that joins that are wrongly allowed to overlap lose an update
+    from mloda.core.abstract_plugins.components.merge.base_merge_engine import BaseMergeEngine as _BME
+
+    _orig_merge = _BME.merge
+
+    def _merge(self: Any, *a: Any, **kw: Any) -> Any:
+        r = _orig_merge(self, *a, **kw)
+        d = MERGE_DELAY.get("s")
+        if d:
+            time.sleep(d)
+        return r
+
+    _BME.merge = _merge  # type: ignore[method-assign]
     for cls in (FeatureGroupStep, TransformFrameworkStep, JoinStep):
         orig = cls.execute
 
@@ -206,7 +221,7 @@ def build_classes(spec: Dict[str, Any], hooks: Optional[Dict[str, Any]] = None) 
     for r in spec["roots"]:
         classes[r["name"]] = F.make_group(r["name"], root_data=r["cols"], frameworks={F.FW_SHORT[r["fw"]]}, hooks=hooks)
     for g in spec["groups"]:
-        classes[g["name"]] = F.make_group(g["name"], derived=g["features"], frameworks={F.FW_SHORT[g["fw"]]}, hooks=hooks)
+        classes[g["name"]] = F.make_group(g["name"], derived=g["features"], frameworks={F.FW_SHORT[g["fw"]]}, hooks=hooks, inplace=bool(spec.get("inplace")))
     return classes
 
 
@@ -582,15 +597,17 @@ def obs_of(exp: Dict[str, Any], events: List[Dict[str, Any]]) -> List[List[Any]]
 
 
 def overlap_on_shared_fw(exp: Dict[str, Any], events: List[Dict[str, Any]]) -> bool:
-    """True when two steps on the same compute framework were open at the same time (input class of the known THREADING
-    lost-update finding: concurrently running steps that were handed the same compute-framework object)."""
+    """True when two FEATURE-GROUP steps on the same compute framework were open at the same time (input class of the known
+    THREADING lost-update finding: concurrently running calculations that were handed the same compute-framework object).
+    Join and transform steps do not count: the planner serialises joins that touch the same frameworks."""
     steps = exp["steps"]
     open_: Set[int] = set()
     for k, i in obs_of(exp, events):
+        if steps[i]["kind"] != "fg":
+            continue
         if k == "b":
-            fw = steps[i].get("fw") or steps[i].get("to") or steps[i].get("left")
             for j in open_:
-                if (steps[j].get("fw") or steps[j].get("to") or steps[j].get("left")) == fw:
+                if steps[j].get("fw") == steps[i].get("fw"):
                     return True
             open_.add(i)
         else:
@@ -659,6 +676,31 @@ def gen_link_spec(rng: Any, frameworks: Sequence[str] = ("pa", "pd", "py"), nsrc
     consumer = {"name": f"Z{uid}", "fw": fw0 if same_fw else rng.choice(list(frameworks)), "feature": f"z{uid}",
                 "parents": [f"v{uid}_{i}" for i in range(n)]}  # fmt: skip
     return {"sources": srcs, "links": links, "consumer": consumer}
+
+
+def gen_star_spec(rng: Any) -> Dict[str, Any]:
+    """Three sources: one left source on framework X, two right sources on another framework Y, consumer on X, inner/left links
+    from the left source to each right source - a three-source shape the unchanged planner handles in every mode."""
+    spec = gen_link_spec(rng, frameworks=("pa", "pd"), nsrc=3, jointypes=("inner", "left"))
+    fx, fy = rng.sample(["pa", "pd"], 2)
+    spec["sources"][0]["fw"] = fx
+    spec["sources"][1]["fw"] = fy
+    spec["sources"][2]["fw"] = fy
+    spec["consumer"]["fw"] = fx
+    spec["links"] = [{"type": rng.choice(["inner", "left"]), "left": 0, "right": 1}, {"type": rng.choice(["inner", "left"]), "left": 0, "right": 2}]
+    for s_ in spec["sources"]:
+        # unique keys and distinct key names keep the three tables' columns apart
+        k = s_["key"]
+        vals = sorted(set(s_["cols"][k])) or [1]
+        other = [c for c in s_["cols"] if c != k][0]
+        s_["cols"] = {k: vals, other: s_["cols"][other][: len(vals)] + [0] * max(0, len(vals) - len(s_["cols"][other]))}
+    for i, s_ in enumerate(spec["sources"]):
+        k = s_["key"]
+        nk = f"{k.split('_')[0]}_s{i}"
+        s_["cols"] = {(nk if c == k else c): v for c, v in s_["cols"].items()}
+        s_["key"] = nk
+    spec["star"] = True
+    return spec
 
 
 def build_link_request(spec: Dict[str, Any], hooks: Optional[Dict[str, Any]] = None, extra_fn: Any = None) -> Tuple[Dict[str, Any], Set[Any], List[Any], Set[Any]]:
